@@ -458,7 +458,12 @@ class Ctx:
             "violations": n_viol,
             "known_findings_reported": self.known_hits,
         }
-        with open(os.path.join(VERIF, "evidence", f"{self.prop}.json"), "w", encoding="utf-8") as f:
+        # evidence/<id>.json describes runs against /repo itself; a run against another tree
+        # (VERIF_REPO: scratch worktrees used to evaluate seeded changes) records elsewhere
+        evdir = "evidence" if os.path.realpath(REPO) == "/repo" else os.path.join("replays", "evidence_other_tree")
+        os.makedirs(os.path.join(VERIF, evdir), exist_ok=True)
+        ev["repo"] = REPO
+        with open(os.path.join(VERIF, evdir, f"{self.prop}.json"), "w", encoding="utf-8") as f:
             json.dump(ev, f, indent=1, default=repr, ensure_ascii=True)
         status = "FAIL" if n_viol else "ok"
         print(f"[{self.prop}] {status}: {len(self.discharged)}/{len(self.obligations)} obligations, "
